@@ -135,4 +135,137 @@ theorem fixRight_fuel_mono (get : Int → Option Int) (N : Nat) (ts : Int) :
           · rw [if_neg h0] at h ⊢; rw [if_neg h0]; exact ih g _ hfg' h
         · rw [if_neg ht]; rw [if_neg ht]
 
+/-! ### the three `while` loops at EQUAL fuel -/
+
+/-- the model's outcome as the outcome of a `while` loop whose state is `id` -/
+def liftOut : Seq.Res → Py.M (Py.Out Int Int)
+  | .ok id => .ok (.done id)
+  | .indexErr => .error .index
+  | .outOfFuel => .error .fuel
+
+/-- the dichotomy loop (state `(delta, id)`): a body that is, point by point, the Python loop body (written with the model's `get`,
+`pyAbs`, `>>>`) runs, at equal fuel, as the model's `searchLoop` — same `id` at the exit (with SOME final `delta`, which the
+code does not read afterwards), `IndexError` ↔ `.indexErr`, out of fuel ↔ `.outOfFuel`. -/
+theorem searchLoop_tie (get : Int → Option Int) (N : Nat) (ts : Int)
+    (body : Int × Int → Py.M (Py.Ctl (Int × Int) Int))
+    (h : ∀ delta id : Int, body (delta, id) =
+      if delta = 0 then .ok (.brk (delta, id))
+      else if (N : Int) ≤ id + delta then .ok (.cont (-(Seq.pyAbs (delta >>> 1)), id + delta))
+      else if id + delta = 0 then .ok (.brk (delta, id + delta))
+      else match get (id + delta) with
+        | none => .error .index
+        | some t => if ts < t then .ok (.cont (-(Seq.pyAbs (delta >>> 1)), id + delta))
+                    else .ok (.cont (Seq.pyAbs (delta >>> 1), id + delta))) :
+    ∀ (fuel : Nat) (id delta : Int), ∃ d : Int, Py.whileLoop body fuel (delta, id) =
+      (match Seq.searchLoop get N ts fuel id delta with
+       | .ok r => .ok (.done (d, r))
+       | .indexErr => .error .index
+       | .outOfFuel => .error .fuel) := by
+  intro fuel
+  induction fuel with
+  | zero => intro id delta; exact ⟨0, rfl⟩
+  | succ f ih =>
+    intro id delta
+    have hb := h delta id
+    unfold Seq.searchLoop
+    simp only []
+    by_cases hd : delta = 0
+    · rw [if_pos hd] at hb; rw [if_pos hd]
+      exact ⟨delta, Py.whileLoop_brk hb⟩
+    · rw [if_neg hd] at hb; rw [if_neg hd]
+      by_cases hN : id + delta ≥ (N : Int)
+      · rw [if_pos (show (N : Int) ≤ id + delta from hN)] at hb; rw [if_pos hN]
+        obtain ⟨d, hd'⟩ := ih (id + delta) (-(Seq.pyAbs (delta >>> 1)))
+        exact ⟨d, by rw [Py.whileLoop_cont hb]; exact hd'⟩
+      · rw [if_neg (show ¬ (N : Int) ≤ id + delta from hN)] at hb; rw [if_neg hN]
+        by_cases h0 : id + delta = 0
+        · rw [if_pos h0] at hb; rw [if_pos h0]
+          exact ⟨delta, Py.whileLoop_brk hb⟩
+        · rw [if_neg h0] at hb; rw [if_neg h0]
+          cases hg : get (id + delta) with
+          | none =>
+            rw [hg] at hb
+            exact ⟨0, Py.whileLoop_error hb⟩
+          | some t =>
+            rw [hg] at hb
+            simp only [] at hb ⊢
+            by_cases ht : t > ts
+            · rw [if_pos (show ts < t from ht)] at hb; rw [if_pos ht]
+              obtain ⟨d, hd'⟩ := ih (id + delta) (-(Seq.pyAbs (delta >>> 1)))
+              exact ⟨d, by rw [Py.whileLoop_cont hb]; exact hd'⟩
+            · rw [if_neg (show ¬ ts < t from ht)] at hb; rw [if_neg ht]
+              obtain ⟨d, hd'⟩ := ih (id + delta) (Seq.pyAbs (delta >>> 1))
+              exact ⟨d, by rw [Py.whileLoop_cont hb]; exact hd'⟩
+
+/-- the first correction loop (`while self.getObs(id).timestamp > timestamp`) at equal fuel -/
+theorem fixLeft_tie (get : Int → Option Int) (ts : Int) (body : Int → Py.M (Py.Ctl Int Int))
+    (h : ∀ id : Int, body id =
+      match get id with
+      | none => .error .index
+      | some t => if ts < t then (if id = 0 then .ok (.brk id) else .ok (.cont (id - 1))) else .ok (.brk id)) :
+    ∀ (fuel : Nat) (id : Int), Py.whileLoop body fuel id = liftOut (Seq.fixLeft get ts fuel id) := by
+  intro fuel
+  induction fuel with
+  | zero => intro id; rfl
+  | succ f ih =>
+    intro id
+    have hb := h id
+    unfold Seq.fixLeft
+    cases hg : get id with
+    | none => rw [hg] at hb; exact Py.whileLoop_error hb
+    | some t =>
+      rw [hg] at hb
+      simp only [] at hb ⊢
+      by_cases ht : t > ts
+      · rw [if_pos (show ts < t from ht)] at hb; rw [if_pos ht]
+        by_cases h0 : id = 0
+        · rw [if_pos h0] at hb; rw [if_pos h0]; exact Py.whileLoop_brk hb
+        · rw [if_neg h0] at hb; rw [if_neg h0, Py.whileLoop_cont hb]; exact ih _
+      · rw [if_neg (show ¬ ts < t from ht)] at hb; rw [if_neg ht]; exact Py.whileLoop_brk hb
+
+/-- the second correction loop (`while self.getObs(id).timestamp <= timestamp`) at equal fuel -/
+theorem fixRight_tie (get : Int → Option Int) (N : Nat) (ts : Int) (body : Int → Py.M (Py.Ctl Int Int))
+    (h : ∀ id : Int, body id =
+      match get id with
+      | none => .error .index
+      | some t => if t ≤ ts then (if id + 1 = (N : Int) then .ok (.brk (id + 1)) else .ok (.cont (id + 1))) else .ok (.brk id)) :
+    ∀ (fuel : Nat) (id : Int), Py.whileLoop body fuel id = liftOut (Seq.fixRight get N ts fuel id) := by
+  intro fuel
+  induction fuel with
+  | zero => intro id; rfl
+  | succ f ih =>
+    intro id
+    have hb := h id
+    unfold Seq.fixRight
+    cases hg : get id with
+    | none => rw [hg] at hb; exact Py.whileLoop_error hb
+    | some t =>
+      rw [hg] at hb
+      simp only [] at hb ⊢
+      by_cases ht : t ≤ ts
+      · rw [if_pos ht] at hb; rw [if_pos ht]
+        by_cases h0 : id + 1 = (N : Int)
+        · rw [if_pos h0] at hb; rw [if_pos h0]; exact Py.whileLoop_brk hb
+        · rw [if_neg h0] at hb; rw [if_neg h0, Py.whileLoop_cont hb]; exact ih _
+      · rw [if_neg ht] at hb; rw [if_neg ht]; exact Py.whileLoop_brk hb
+
+/-! ### the whole function -/
+
+section
+variable {α : Type} [Div α] [LE α] [DecidableLE α] [IntCast α] [OfNat α 0] [OfNat α 2]
+
+theorem tie_ge2 (log : α → α) (trunc : α → Int) (fuel : Nat) (T : List Int) (ts : Int)
+    (hN : 2 ≤ T.length)
+    (hlog2 : ¬ Py.feq (log (2 : α)) 0 = true)
+    (htr : trunc (log ((T.length : Int) : α) / log (2 : α)) = (Seq.ilog2 T.length : Int))
+    (hfuel : Seq.ilog2 T.length - 1 + T.length + 3 ≤ fuel)
+    (hm : Seq.insertionIndex T ts ≠ .outOfFuel) :
+    Gen.Track.Track_getInsertionIndex log trunc fuel T ts = lift (Seq.insertionIndex T ts) := by
+  unfold Gen.Track.Track_getInsertionIndex
+  simp only []
+  trace_state
+  sorry
+
+end
+
 end TV.Tie.C04
